@@ -206,7 +206,13 @@ def sub_obligations(ctx, module):
     if key not in _SUB_CACHE:
         sub = Ctx(ctx.prop, ctx.prog, ctx.tier, ctx.meta)
         sub.sub = True
-        module.check(sub)
+        try:
+            module.check(sub)
+        except Exception:
+            import traceback
+            # the adopted rules could not be evaluated on this tree: adopters see a lost anchor (fail closed)
+            for r in sorted({o["rule"] for o in sub.obligations} | {module.__name__.upper() + ".anchor"}):
+                sub.fail(r, "anchor-lost:rule-engine-exception", "", "evaluation of %s raised: %s" % (module.__name__, traceback.format_exc()[-400:]))
         _SUB_CACHE[key] = sub
     return _SUB_CACHE[key]
 
